@@ -25,8 +25,7 @@ CLAIMED['C19'] = dict(
          'method table PUT/POST/DELETE, empty delete body, text content type, timeout hand-over, gateway spelling equivalences. The literals, the '
          'sorted() call and the escape shape are re-extracted from exposition.py on every run; model vs real code on ~7·10^3 requests (exhaustive '
          'short strings over a URL-significant alphabet + random) with an independent decoder oracle (urlsafe_b64decode / unquote_plus) on the real URLs.',
-    note='Trusted: Lean kernel; urlparse reduced to its scheme test (compared with the real urlparse per case); sorted() of unique str keys = '
-         'code-point order; exposition body is an opaque parameter here (C03 covers it); extractor; sampling correspondence.',
+    note="The lossless theorems hold under BOTH decoders: the Pushgateway's path unescaping ('+' literal; *_go theorems, which depend on the extracted encoder flag) and form decoding. Trusted: urlparse reduced to its scheme test (compared with the real urlparse per case); sorted() of unique str keys = code-point order; exposition body is an opaque parameter here (C03 covers it); the registry-is-None branch of pushadd_to_gateway is not modelled; job is a str.",
     ref='DESIGN.md 5 C19')
 
 CLAIMED['C17'] = dict(
@@ -36,8 +35,7 @@ CLAIMED['C17'] = dict(
          'body = that format\'s exposition of the registry restricted to name[] (body_is_restricted_exposition), WSGI = ASGI = MetricsHandler on every GET '
          '(frontends_agree, wsgi_asgi_agree), OPTIONS/405 without collecting. Literals, comparison operators and per-front-end parameter extraction are '
          're-extracted from exposition.py/asgi.py each run; the three real front-ends are driven in-process on ~3.5·10^3 requests (quick) with an independent oracle.',
-    note='Trusted: Lean kernel; parse_qs, gzip (abstract injective function), urlparse(path+?+q).query == q and latin-1 decode laws (re-checked per case); '
-         'wsgiref/http.server/ASGI servers themselves are outside the model; repeated Accept field lines are out of scope (documented).',
+    note="Scope limit: the three-way agreement is proved and tested for request targets without a raw '#' (not a valid RFC 3986 query character; with one, MetricsHandler — urlparse cuts at '#' — can differ from WSGI/ASGI: kernel-checked example raw_hash_in_target_differs; such requests are generated and counted under documented_limits). Header values are BYTES at the front-end boundary (ASGI codec extracted; WSGI/http.server latin-1 views trusted). Repeated Accept field lines out of scope. Trusted: parse_qs, gzip (abstract injective function); wsgiref/http.server/ASGI servers themselves are outside the model.",
     ref='DESIGN.md 5 C17')
 CLAIMED['C18'] = dict(
     text='The effect skeleton of write_to_textfile (open tmp, generate, encode, write pieces, close, rename; handler: caught class, remove tmp, re-raise; '
@@ -108,7 +106,7 @@ CLAIMED['C11'] = dict(
          'per value update, while-loop growth, short-file guard); theorems for every history and EVERY cut point: every_cut_readable (the reader succeeds and returns a prefix state, optionally '
          'plus the in-flight key at zero), every_cut_reopenable, never_written_never_read, value_update_single_effect, one_file_cannot_fail_scrape. The real effect trace is recorded, every '
          'prefix materialised and given to the real reader, collector and reopen; thorough tier kills forked writers with SIGKILL.',
-    note='Trusted: one mmap slice assignment is indivisible at the granularity of the property ("between consecutive file effects"); page-cache visibility; json key decoding in the collector not modelled.',
+    note='26 obligations, none partial: every cut of every history for any number of writer generations (every_cut_readable_gen, gen_cut_prefix_state, continuation_from_cut), never_written_never_read stated on the completed prefix + in-flight op, vanished live-gauge files are skipped (removed_files_are_tolerated; any other vanished file would escape: only mark_process_dead removes worker files, and only live-gauge ones), two_cut_read: a reader whose two read() calls see two different cuts still returns only entries published at the first (the one entry crossing the page boundary can get value and timestamp from different cuts). Trusted: one slice assignment and one read() are indivisible; file below 2^31 bytes; one writer per file at a time; json key decoding in the collector not modelled.',
     ref='DESIGN.md 5 C11')
 CLAIMED['C16'] = dict(
     text='Protocol model of Timer / InprogressTracker / ExceptionCounter (flags re-extracted from context_managers.py) and of decorator.FunctionMaker signature forwarding; theorems by mutual '
@@ -126,16 +124,14 @@ CLAIMED['C08'] = dict(
          'count_eq_inf_bucket, gauge_value_declarative (min/max/mostrecent give an extremal element; mostrecent absent iff never set), help/labels/bounds preserved, live_modes_ignore_dead, order '
          'independence of sums under a commutative monoid. 1–4 simulated processes × 10 modes × ties/NaN/±0/dead and reused pids, collected after every step and judged by an independent reference aggregate; '
          'thorough tier forks real workers.',
-    note='Known finding (listed): C08:gauge-label-named-pid. Hypotheses: one type and one gauge mode per metric name, le texts parse, floatToGoString injective on occurring bounds (C13). The store file is '
-         'abstracted to an ordered map (justified by C10); json key round trip and glob order trusted.',
+    note="Known finding (listed): C08:gauge-label-named-pid (F24). accumulate_eq_spec_partial holds for listings of files written by values.py in which a metric name has one type and one gauge mode, le texts parse, label names inside a key are distinct (derived for worker directories), no gauge has a label named pid; bucket-key distinctness is derived from injectivity of floatToGoString on the occurring bounds, itself derived from C13 up to three stated repr facts. No-duplicates is stated on the OUTPUT after dict(labels). collect_workers_partial / worker_sums_partial additionally assume the C09 precondition and list each worker's calls contiguously (disjoint identities write disjoint files). series_present_iff states which pid series exist. The store file is abstracted to an ordered map (justified by C10); json key round trip and glob order trusted.",
     ref='DESIGN.md 5 C08')
 CLAIMED['C09'] = dict(
     text='State-machine model of the MultiProcessValue closure (pid, files, live values; every op begins with the pid check that closes files and re-binds every live value by re-reading) with the '
          'call-order facts re-extracted from values.py each run; theorems for histories of any length with any number of identity changes incl. returning to an earlier identity: writes_only_own_files, '
          'rebinding_reads_current, per_pid_gauge_partial, conservation_partial (sum over all identities\' files = sum of all increments in a commutative monoid). Simulated identities with a change '
          'inserted at every position, per-file contents observed after every step; thorough tier uses real os.fork().',
-    note='Precondition of the *_partial theorems (documented, not a finding): at most one live value object per (file, key) — two same-named metrics created with registry=None, or a child handle kept '
-         'across remove(), share one cell but cache separately. Identities contain no underscore.',
+    note='The *_partial theorems (per_pid_gauge, conservation, caches_coherent, world_cell, reuse_continues, conservation_world) hold for histories in which every update goes through the YOUNGEST value object on its (file prefix, key); stale objects are allowed (remove()/clear() then labels() again is covered); updating both an old and a new object on one key loses updates in the real code too and the model reproduces it (two_objects_lose_updates). Identities contain no underscore; conservation is for series that are only incremented, in a commutative monoid. writes_only_own_files, rebinding_reads_current, dead_removes_only_live_files, entry_present_iff need none of this. World histories include spawn/dead/pid reuse.',
     ref='DESIGN.md 5 C09')
 
 CLAIMED['C03'] = dict(
@@ -162,8 +158,7 @@ CLAIMED['C15'] = dict(
          'counter_like_nan/negative, quantile_out_of_range, count_not_integral, timestamp_backwards/partial, duplicate_label, exemplar_ineligible/too_long, bucket_bound_nan, '
          'hist_bounds_not_increasing, hist_counts_not_cumulative (document level), hist_no_inf_partial / hist_count_ne_inf_partial (on the family sample list). Suffix lists, comparison operators, '
          'limits and keywords are re-extracted each run; valid generated documents × 26 rule-violating transformations × every applicable position are fed to the real parser.',
-    note='Documented exemptions (run against the real parser each check): info timestamp order, order across groups, negative _gsum, _created, dropped duplicate lines, families without # TYPE. '
-         'Two histogram rules lack the line→sample-list composition (stated as missing).',
+    note='Document-level theorems (offending line anywhere, everything else arbitrary) for every rule of the statement except two histogram-group rules; rejected_with_valueError composes them with om_parser_total (the error is ValueError). duplicate_label_document and exemplar_too_long_document are on rendered text. hist_no_inf_partial and hist_count_ne_inf_partial are on the sample list _check_histogram receives (the line-fold composition is missing because the failure is not prefix-stable). Exemptions (run against the real parser each check): info timestamp order; order only between consecutive samples of a group; negative _gsum; _created; a line repeating a series at an unchanged timestamp is dropped; native-histogram lines bypass the family-name test; families without # TYPE and a _count line before its buckets are harness-only.',
     ref='DESIGN.md 5 C15')
 
 CLAIMED['C12'] = dict(
@@ -172,8 +167,7 @@ CLAIMED['C12'] = dict(
          'pairs, normalise removing only the intended differences (_created, exemplars, pid label in all/liveall, order, never-set mostrecent gauges); built from one_interface, cells_agree_partial, '
          'collector_on_one_process, le_labels_agree. Every C01-style history is run against BOTH real back-ends (MutexValue registry vs MultiProcessValue + MultiProcessCollector) and compared by an '
          'oracle written from the property text; the driver returns both models\' maps.',
-    note='Known findings (listed, each excluded by an explicit hypothesis and shown by a kernel-checked counter-example): C12:negative-first-bound-sum (F14), C12:remove-clear-not-propagated (F28), '
-         'C12:signed-zero-bounds (F29). BoundsOK (rendered le text is a fixpoint of parse∘render) is validated per generated bound. Inherits the preconditions of C08/C09.',
+    note='Known findings (listed, each excluded by an explicit hypothesis and shown by a kernel-checked counter-example): C12:negative-first-bound-sum (F14), C12:remove-clear-not-propagated (F28), C12:signed-zero-bounds (F29). The two collections are compared as sets of ((sample name, sorted labels), value) under NUMERIC equality (sign of zero ignored: a sum starting from 0.0 turns -0.0 into 0.0 in the collector; counted as a documented limit), plus family name/type/help (families_agree_partial; both real collections in the harness); multiplicity of repeated series is not compared. BoundsOK (rendered le text is a fixpoint of parse∘render) is validated per generated bound. Inherits the preconditions of C08/C09.',
     ref='DESIGN.md 5 C12')
 
 CLAIMED['C04'] = dict(
